@@ -6,6 +6,7 @@ package gcc
 import (
 	"container/list"
 	"errors"
+	"io"
 	"sync"
 	"time"
 
@@ -13,6 +14,9 @@ import (
 	"github.com/pion/logging"
 	"github.com/pion/rtp"
 )
+
+// maxPayloadLen is the size of the pooled payload buffers.
+const maxPayloadLen = 1460
 
 var errLeakyBucketPacerPoolCastFailed = errors.New("failed to access leaky bucket pacer pool, cast failed")
 
@@ -62,7 +66,7 @@ func newLeakyBucketPacer(initialBitrate int, loggerFactory logging.LoggerFactory
 	}
 	pacer.pool = &sync.Pool{
 		New: func() any {
-			b := make([]byte, 1460)
+			b := make([]byte, maxPayloadLen)
 
 			return &b
 		},
@@ -98,6 +102,9 @@ func (p *LeakyBucketPacer) getTargetBitrate() int {
 // Write sends a packet with header and payload the a previously registered
 // stream.
 func (p *LeakyBucketPacer) Write(header *rtp.Header, payload []byte, attributes interceptor.Attributes) (int, error) {
+	if len(payload) > maxPayloadLen {
+		return 0, io.ErrShortBuffer
+	}
 	buf, ok := p.pool.Get().(*[]byte)
 	if !ok {
 		return 0, errLeakyBucketPacerPoolCastFailed
